@@ -38,6 +38,14 @@ let ptrs_of s = if s = "-" then [] else List.map z_of_dec (String.split_on_char 
 let show_ptrs l = match l with [] -> "-" | _ -> String.concat "," (List.map dec_of_z l)
 let show_struct s = "ok " ^ hex_of_bytes s.sdata ^ " " ^ show_ptrs s.sptrs
 
+(* the extracted functions recurse over the data section (up to 524280 bytes for a 65535-word
+   struct): re-run ourselves under an unlimited stack, stdin/stdout are inherited *)
+let () =
+  if Array.length Sys.argv < 2 || Sys.argv.(1) <> "--child" then begin
+    let cmd = Printf.sprintf "ulimit -s unlimited 2>/dev/null; exec %s --child" (Filename.quote Sys.executable_name) in
+    exit (Sys.command cmd)
+  end
+
 let () = iter_lines (fun line ->
   match split_ws line with
   | [op; _; _; _; kind; off; def; disc; doff; data; ptrs; arg] ->
